@@ -96,6 +96,23 @@ def h_shadow(a, b):
     x = x + y
     return x
 
+def h_rng(a, b):
+    xs = a + 1
+    if b > 2:
+        ys = b * 2
+    else:
+        ys = xs - b
+    return xs, ys
+
+def h_closure(xs, k):
+    total = 0
+    def add(x, k2=k):
+        return x + k2 + total
+    out = []
+    for x in xs:
+        out.append(add(x))
+    return out
+
 class CM:
     def __enter__(self):
         ev('enter')
@@ -219,6 +236,25 @@ def c_while(a):
         n += 1
     return n
 
+def c_rng(a, b):
+    xs, ys = h_rng(a, b)
+    return xs - ys
+
+def c_rng_swapped(a, b):
+    ys, xs = h_rng(a, b)
+    return xs * 10 + ys
+
+def c_rng_self(a, b):
+    ys = b
+    xs, ys = h_rng(a, ys)
+    return xs * 10 + ys
+
+def c_closure(a, b):
+    add = 100
+    x = 5
+    r = h_closure([a, b, x], a + b)
+    return add, x, r
+
 def c_ifexp(a, b):
     v = h_expr(a, b) if a else h_expr(b, a)
     return v
@@ -274,7 +310,8 @@ def main():
         'c_default': [(v,) for v in vals], 'c_nested': itertools.product(vals, vals), 'c_shadow': itertools.product(vals, vals),
         'c_cond': itertools.product(vals, vals), 'c_ifexp': itertools.product(vals, vals), 'c_in_loop': [([1, 2, 3, 4],), ([],)],
         'c_meth': itertools.product(vals, vals), 'c_set': itertools.product(vals, vals), 'c_cond2': itertools.product(vals, vals),
-        'c_reset': itertools.product(vals, vals), 'c_while': [(v,) for v in vals],
+        'c_reset': itertools.product(vals, vals), 'c_while': [(v,) for v in vals], 'c_rng': itertools.product(vals, vals),
+        'c_rng_swapped': itertools.product(vals, vals), 'c_closure': itertools.product(vals, vals), 'c_rng_self': itertools.product(vals, vals),
     }
     bad = 0
     n = 0
@@ -293,7 +330,7 @@ def main():
     print('%d executions compared, %d mismatches' % (n, bad))
     # every form must actually have been exercised
     want = {'h_pred', 'h_expr', 'h_stmt', 'h_none', 'h_search', 'h_all', 'h_any', 'h_try', 'h_with', 'h_kw', 'h_default', 'h_nested', 'h_shadow',
-            'K._m', 'K._set', 'K._reset_then'}
+            'K._m', 'K._set', 'K._reset_then', 'h_rng', 'h_closure'}
     missing = want - set(inl)
     if missing:
         print('NOT EXERCISED: %s' % sorted(missing))
